@@ -935,7 +935,7 @@ def main(argv=None):
             replay["model_predicts_shared"] = predicted(small, inf2)
         rep.violation(signature(kind, small, codes2, inf2), replay)
 
-    if broken and rep.violations == 0 and not rep.known:
+    if broken and rep.violations == 0:      # known findings never hide a broken obligation
         rep.violation({"broken": True}, {"broken_obligations": broken,
                       "note": "a proof obligation, the generated-table side condition or the correspondence machinery "
                               "no longer checks; no failing input found"}, no_input=True)
